@@ -105,6 +105,9 @@ func getPoolConfig(cfg *daemon.Config, daemonMode string, limit *client.Limits) 
 		} else {
 			poolConfig.MaxPoolSize = cfg.MaxPoolSize
 		}
+		if poolConfig.MaxPoolSize < 0 {
+			poolConfig.MaxPoolSize = 0
+		}
 
 		poolConfig.MinPoolSize = cfg.MinPoolSize
 
@@ -113,6 +116,9 @@ func getPoolConfig(cfg *daemon.Config, daemonMode string, limit *client.Limits) 
 		}
 		if poolConfig.MinPoolSize > poolConfig.MaxPoolSize {
 			poolConfig.MinPoolSize = poolConfig.MaxPoolSize
+		}
+		if poolConfig.MinPoolSize < 0 {
+			poolConfig.MinPoolSize = 0
 		}
 
 		maxMemberENI = limit.MemberAdapterLimit
